@@ -245,6 +245,18 @@ class Interp:
             self._structs = {hirq.short_def(k) for k, it in self.facts.items.items() if it.get('kind') == 'Struct'}
         return short in self._structs
 
+    def struct_field_names(self, ty):
+        """The field names, in declaration order, of the workspace struct with named fields that the type `ty` (generic arguments
+        and references put aside) names; None for any other type (foreign, enum, tuple struct, unit struct)."""
+        if not hasattr(self, '_struct_fields'):
+            self._struct_fields = {}
+            for k, it in self.facts.items.items():
+                vs = it.get('variants') or []
+                if it.get('kind') == 'Struct' and len(vs) == 1 and vs[0].get('fields') and not any(str(x.get('name', '0')).isdigit() for x in vs[0]['fields']):
+                    self._struct_fields[k] = [x['name'] for x in vs[0]['fields']]
+        t = hirq.strip_refs(str(ty or ''))
+        return self._struct_fields.get(t.split('<', 1)[0])
+
     # ------------------------------------------------------------------ helpers
     def discr_of(self, short):
         if not hasattr(self, '_discr'):
@@ -414,7 +426,7 @@ class Interp:
             exprs = exprs + [base]
         res, abn = self.seq(exprs, st)
         outs = []
-        d = hirq.short_def(e.get('ctor_of') or e.get('def') or '?')
+        d = hirq.short_def(hirq.adt_path(e))
         for v, s in res:
             bv = None
             if len(v) > len(names):
@@ -1290,6 +1302,19 @@ class Interp:
                     # place, whatever the place holds by now
                     place = ('field', self.place_value(base, st), P[2])
                     return [Out('val', UNIT, st.store(place, val).event(('store', place, val, node)))]
+                root = self.env_place(P, st) if P is not None and P[0] == 'param' else None
+                flds = self.struct_field_names(lhs.get('ty')) if root is not None else None
+                if flds:
+                    # `*r = v` where r is a `&mut S` parameter (`*self = Self { .. }`) and S a struct of this workspace with named
+                    # fields: the whole referent is replaced, i.e. every field f of it now holds v.f - a store to each field, so that
+                    # what a field holds afterwards does not depend on whether it was written alone or with the rest.  Of a struct
+                    # expression v.f is the listed expression, else the field of the functional-update base (field_term); of any
+                    # other value it is the projection term.  (Exact for all v: a struct value is the tuple of its fields.)
+                    s = st
+                    for n in flds:
+                        place, fv = ('field', root, n), field_term(val, n)
+                        s = s.store(place, fv).event(('store', place, fv, node))
+                    return [Out('val', UNIT, s)]
                 cur = st.env.get(inner['bind'])
                 if cur is not None and cur[0] == 'field':
                     # `*r = v` where r was bound to a place (`let (a, b) = &mut *guard`): a store through the reference
@@ -2071,6 +2096,8 @@ class Interp:
     def is_variant_pat(self, p):
         if 'Struct' in (p.get('defkind') or ''):
             return False
+        if p.get('res') == 'selfty' and p.get('k') == 'PStruct' and self.is_struct_name(hirq.variant_name(p)):
+            return False          # `Self { .. }` in an impl of a struct
         if p.get('defkind', '').startswith('Ctor') or p.get('defkind') == 'Variant':
             return True
         return self.adt_is_enum(p)
